@@ -23,7 +23,7 @@ RULE = ('case i draws a batch of 6 seeded programs from the union of all generat
         'minimal completing stack N is measured and the histories at N, N+1, N+2, N+9, 4000 and 100000 words '
         'must be identical (time-travel programs included). (c) word size: the program (generated so that all '
         'its constants fit 16 bits) is run at every word '
-        'size in {2,3,4,8}; whenever the reference histories at w < w\' agree the SVM histories must agree. '
+        'size in {2,3,4,5,6,7,8}; whenever the reference histories at w < w\' agree the SVM histories must agree. '
         '(d) lint: --lint either raises a compiler diagnostic or yields byte-identical assembly. '
         'distinct = hash(batch sources); non-trivial = all four sub-checks executed for the batch.')
 ASSUMPTIONS = ['PYTHONHASHSEED is the only per-process source of nondeterminism in hidc (no clocks, ids or paths in the output)',
@@ -85,7 +85,7 @@ def check_words(p, argv, src):
     out = []
     seen = []
     runs = 0
-    for W in (2, 3, 4, 8):
+    for W in (2, 3, 4, 5, 6, 7, 8):
         ref = refmodel.run(p, argv, W, stack_bytes=4000 * W)
         if ref.outcome not in ('WIN', 'ERROR', 'DIVERGE'):
             continue
